@@ -360,6 +360,8 @@ def rule_simplify_member(ctx: Ctx) -> None:
 
 
 def run(ctx: Ctx) -> None:
+    from .c14 import rule_wrapper_per_operation
+    rule_wrapper_per_operation(ctx)  # the exported body of a local Clifford is the product of *all* its listed gates
     rule_simplify_member(ctx)
     gatesum.rule_derived_gates(ctx)  # both backends must realise each elementary gate: the stabilizer side's derived gates
     from ..rules import memo as _memo
